@@ -43,6 +43,7 @@ NAMES = tuple(n for n, _ in REF_TABLE)
 CONV = dict(REF_TABLE)
 FAKE_SOURCE = os.path.join(os.path.dirname(os.path.dirname(os.path.abspath(__file__))), "fakesolver.py")
 
+PYTHON_O_STRIDE = {"quick": 4, "thorough": 2}      # every n-th case is repeated in an interpreter started with -O
 RULE = ("one evaluation = one call of CNF.solve() or CNF.is_satisfiable() with a fake solver on a scratch PATH. "
         "Formulas: curated corner cases (no variables, empty clause, only unused variables, unused variables "
         "between used ones, alternating-sign unique model, pigeonhole instances) and seeded random CNFs with "
